@@ -26,6 +26,7 @@ TraceSigEv ==
          req ==
            IF expectFail THEN
                 Cl(~e.built, "C10.failed_signing_not_reported_as_built")
+                \cup Cl(~e.built, "C06.no_success_when_signing_cannot_be_done")
                 \cup Cl(e.built \/ e.is_signing_failure, "C10.signing_failure_identifiable")
                 \cup Cl(e.built \/ e.wraps_cause, "C10.signing_failure_wraps_signer_error")
            ELSE IF Unusable(e) /\ ~e.built THEN {}       \* (a key that cannot sign: refusing is fine; reporting success is not)
